@@ -37,14 +37,19 @@ def pool():
     nested = np.array([np.array([1, 2]), np.array([3, 4, 5]), 6], dtype=object)
     mat = np.array([[4, 5, 6], [1, 2, 3], [4, 5, 6], [7, 8, 9]])
     strs = np.array(["ab", "cd", "ef"], dtype=object)
+    from klongpy.core import KGSym, KGChar
+    symmat = np.array([[KGSym('a'), KGSym('b')], [KGSym('c'), KGSym('d')]], dtype=object)
+    chrmat = np.array([[KGChar('a'), KGChar('b')], [KGChar('c'), KGChar('d')]], dtype=object)
     items = {
         'ivec': base, 'iview': base[2:], 'fvec': fbase, 'nested': nested, 'nview': nested[:2], 'mat': mat, 'mrow': mat[1],
         'str': "hello", 'strs': strs, 'one': np.array([4]), 'empty': np.array([], dtype=int), 'two': np.array([1, 0]),
         'int': 2, 'neg': -2, 'zero': 0, 'float': 1.5, 'idx': np.array([0, 2]), 'amend': np.array([9, 0, 1], dtype=object),
         'amendl': np.array([np.array([7, 7]), 0], dtype=object), 'shape': np.array([2, -1]), 'depth': np.array([1, 0]),
         'pylist': [3, 1, 2], 'pypair': [0, 5], 'pynested': [[1, 2], [3]],
+        'symmat': symmat, 'symrow': symmat[1:], 'chrmat': chrmat, 'amendsym': np.array([KGSym('z'), 0, 1], dtype=object),
+        'amendstr': np.array(['q', 1, 0], dtype=object), 'amendsym1': np.array([KGSym('z'), 1], dtype=object),
     }
-    bases = {'base': base, 'fbase': fbase, 'nested': nested, 'mat': mat, 'strs': strs}
+    bases = {'base': base, 'fbase': fbase, 'nested': nested, 'mat': mat, 'strs': strs, 'symmat': symmat, 'chrmat': chrmat}
     return items, bases
 
 
